@@ -5,6 +5,7 @@ package main
 
 import (
 	"encoding/base64"
+	"encoding/json"
 	"encoding/hex"
 	"fmt"
 	"math"
@@ -130,6 +131,84 @@ func genHeap(r *rng, n int, cyclic bool) []*pnode {
 	return nodes
 }
 
+// reasonStream: the reason text of the real diffEnv for environments that differ in a chosen set of top-level keys
+// (known parts of functionEnvKeys and unknown ones) against the model's `reasonFor`
+// reasonKeysOverride: replay of one case of the stream
+var reasonKeysOverride []string
+
+func reasonStream(r *rng, tier string) {
+	keys := dawn.VerifEnvKeys()
+	unknown := []string{"zzz", "signature", "Names", "free  variables"}
+	n := 150
+	if tier == "thorough" {
+		n = 3000
+	}
+	if tier == "replay1" {
+		n = 3
+	}
+	for i := 0; i < n; i++ {
+		var chosen []string
+		for _, k := range keys {
+			if r.below(4) == 0 {
+				chosen = append(chosen, k)
+			}
+		}
+		if r.below(3) == 0 || len(chosen) == 0 && r.below(2) == 0 {
+			chosen = append(chosen, unknown[r.below(len(unknown))])
+		}
+		if len(chosen) == 0 {
+			chosen = append(chosen, keys[r.below(len(keys))])
+		}
+		if reasonKeysOverride != nil {
+			chosen = reasonKeysOverride
+		}
+		oldEnv, newEnv := starlark.NewDict(0), starlark.NewDict(0)
+		for _, k := range keys {
+			oldEnv.SetKey(starlark.String(k), starlark.MakeInt(1))
+			newEnv.SetKey(starlark.String(k), starlark.MakeInt(1))
+		}
+		var hx []string
+		for j, k := range chosen {
+			switch (i + j) % 3 {
+			case 0:
+				newEnv.SetKey(starlark.String(k), starlark.MakeInt(2)) // changed (or added, for an unknown key)
+			case 1:
+				oldEnv.SetKey(starlark.String(k), starlark.MakeInt(3)) // changed / only in the old record
+			default:
+				newEnv.SetKey(starlark.String(k), starlark.NewList([]starlark.Value{starlark.MakeInt(1)}))
+			}
+			hx = append(hx, hexs(k))
+		}
+		res := func() (res string) {
+			defer func() {
+				if e := recover(); e != nil {
+					res = "panic"
+				}
+			}()
+			eq, reason, err := dawn.VerifDiffEnv(oldEnv, "b2xk", newEnv, "bmV3")
+			if err != nil || eq {
+				return fmt.Sprintf("unexpected eq=%v err=%v", eq, err)
+			}
+			return "ok " + hexs(reason)
+		}()
+		emitC("env.reasontext", fmt.Sprintf("reason %s %s", reasonRule, strings.Join(hx, ",")), res)
+		if res == "panic" {
+			// the property's own predicate on the implementation: computing the reason must not kill the build
+			b, _ := json.Marshal(map[string]any{"kind": "diffenv-panic", "feature": "reasontext", "key": "diffenv-panic:reasontext", "target": "",
+				"detail": fmt.Sprintf("diffEnv panics for two environments that differ exactly in the top-level keys %q (a record with a part this version does not list in functionEnvKeys)", chosen),
+				"input": map[string]any{"stream": "env.reasontext", "keys": chosen}})
+			outMu.Lock()
+			stats["violations"]++
+			if nviolK["diffenv-panic"] < 2 {
+				fmt.Fprintf(out, "V\t%s\n", b)
+			}
+			nviolK["diffenv-panic"]++
+			outMu.Unlock()
+		}
+		hist("reasontext_outcome", strings.SplitN(res, " ", 2)[0])
+	}
+}
+
 func heapText(nodes []*pnode) string {
 	var parts []string
 	for _, n := range nodes {
@@ -242,6 +321,7 @@ func copyHeap(r *rng, nodes []*pnode, perturb bool) []*pnode {
 }
 
 func compareStreams(r *rng, tier string) {
+	reasonStream(r, tier)
 	n := 1500
 	if tier == "thorough" {
 		n = 20000
